@@ -3,6 +3,7 @@ package main
 // Mapping of Go types to SMT sorts, datatype declarations, naming of heaps.
 
 import (
+	"regexp"
 	"fmt"
 	"go/types"
 	"math/big"
@@ -100,7 +101,7 @@ func shortTypeName(t types.Type) string {
 		}
 		return path
 	})
-	return sanitize(s)
+	return sanitize(canonTypeString(s))
 }
 
 // structName returns the canonical name of a struct type (named or anonymous).
@@ -386,7 +387,7 @@ func (d *Decls) embName(structT types.Type, i int) string {
 }
 
 func (d *Decls) typeTag(t types.Type) int {
-	k := types.TypeString(t, nil)
+	k := canonTypeString(types.TypeString(t, nil))
 	if v, ok := d.tags[k]; ok {
 		return v
 	}
@@ -402,4 +403,12 @@ func canonTypeName(t types.Type) string {
 		return types.Typ[b.Kind()].Name()
 	}
 	return shortTypeName(t)
+}
+
+var byteWord = regexp.MustCompile(`\bbyte\b`)
+var runeWord = regexp.MustCompile(`\brune\b`)
+
+// canonTypeString: byte and uint8 (rune and int32) are the same type, also as dynamic types of interface values.
+func canonTypeString(s string) string {
+	return runeWord.ReplaceAllString(byteWord.ReplaceAllString(s, "uint8"), "int32")
 }
